@@ -330,29 +330,43 @@ class C06Monitor(Monitor):
             pool.setdefault(c.y, []).append(c)
         skipped = set()
         N = a.N
+        read = {}
         for i, it in enumerate(items[1:-1], start=1):
             try:
-                y = core.as_floats(it.GetY().floatVariables)
-                z = float(it.GetZ())
-                fvv = float(it.functionValues[0].value)
+                read[i] = (core.as_floats(it.GetY().floatVariables), float(it.GetZ()), float(it.functionValues[0].value))
             except BaseException as e:
                 _reraise_if_harness(e)
                 bad("unreadable", "item %d unreadable: %r" % (i, e))
+        # pass 1: exact (point, z) matches - a refined item whose rewritten point happens to
+        # coincide with another trial's point cannot steal that trial's log entry
+        unmatched = []
+        for i in sorted(read):
+            y, z, fvv = read[i]
+            lst = pool.get(y) or []
+            hit = next((c for c in lst if c.value == z), None)
+            if hit is None:
+                unmatched.append(i)
                 continue
-            lst = pool.get(y)
-            if not lst:
-                if y in refined_pts and len(skipped) < allowed_skips:
-                    skipped.add(i)
-                    continue
-                bad("fidelity_point", "item %d at x=%r stores point %r which was never evaluated by the global search" % (i, xs[i], y))
-                continue
-            c = lst.pop()
-            if z != c.value:
-                bad("fidelity_value", "item %d at %r stores z=%r, objective returned %r" % (i, y, z, c.value))
-            if fvv != c.value:
-                bad("fidelity_value", "item %d at %r stores value %r, objective returned %r" % (i, y, fvv, c.value))
+            lst.remove(hit)
+            if fvv != hit.value:
+                if y in refined_pts and len(skipped) < allowed_skips and fvv in [c.value for c in a.calls if c.phase == "local" and c.completed]:
+                    skipped.add(i)      # refinement returned its start point: only the holder was rewritten
+                else:
+                    bad("fidelity_value", "item %d at %r stores value %r, objective returned %r" % (i, y, fvv, hit.value))
             if forbid_x is not None and xs[i] == forbid_x:
                 bad("failed_point_recorded", "item %d has the coordinate %r of the failed evaluation" % (i, forbid_x))
+        # pass 2: what is left is either the item a refinement rewrote, or an infidelity
+        for i in unmatched:
+            y, z, fvv = read[i]
+            if y in refined_pts and len(skipped) < allowed_skips:
+                skipped.add(i)
+                continue
+            lst = pool.get(y) or []
+            if lst:
+                c = lst.pop()
+                bad("fidelity_value", "item %d at %r stores z=%r, objective returned %r" % (i, y, z, c.value))
+            else:
+                bad("fidelity_point", "item %d at x=%r stores point %r which was never evaluated by the global search" % (i, xs[i], y))
         leftover = sum(len(v) for v in pool.values())
         if leftover > len(skipped):
             bad("missing", "%d evaluated trials are not in the search information" % (leftover - len(skipped)))
